@@ -487,7 +487,10 @@ class SimulateOde(DeterministicOde):
         assert self._x0 is not None, "No initial state"
 
         t = float(self._t0)
-        x = copy.deepcopy(self._x0)
+        # the state is held as floats from the start: counts given as an integer
+        # array would make the first rates integer arithmetic, which overflows
+        # silently for large populations (2e9**2 > 2**63)
+        x = np.array(self._x0, dtype=float)
 
         # holders and record information
         xList = [x.copy()]          # states
